@@ -3,6 +3,7 @@
 Rule (nullness typestate on the malloc result r, decided on the CFG of each constructor):
   R1  every use of r (or of an address computed from r) other than the NULL comparison and the return is dominated by the
       non-NULL edge of a branch on (r == NULL);
+  R3  (lockset interpretation) at every NULL return of a constructor no mutex is held and no pre-existing object (the parent) has been written.
   R2  the NULL path (blocks reachable from the NULL edge without passing the non-NULL edge) contains no store and no call, so
       nothing - in particular the intended parent - is touched, and it returns r (i.e. NULL) or a literal NULL."""
 from .. import ir as IR
@@ -13,22 +14,66 @@ from ..report import Violation, AnalysisBroken
 CONSTRUCTORS = ('nsync_note_new', 'nsync_counter_new')
 ALLOCATORS = ('malloc', 'calloc', 'realloc')
 
+PASS_THROUGH = ('memset', 'memcpy', 'memmove')      # return their first argument
+
+def _derived(fn, root):
+    """SSA ids carrying the pointer root: casts, address arithmetic, phi, and the result of memset/memcpy (which return their first argument)"""
+    um = users_map(fn)
+    out = {root}
+    work = [root]
+    while work:
+        r = work.pop()
+        for u in um.get(r, []):
+            if u.id in out:
+                continue
+            if u.op in ('bitcast', 'addrspacecast', 'getelementptr') or (u.op == 'call' and u.callee in PASS_THROUGH and u.ops and u.ops[0] == r):
+                out.add(u.id); work.append(u.id)
+    return out
+
+def allocator_functions(mod):
+    """malloc & co. plus every defined function that returns the result of one of them (a wrapper such as a zeroing allocator)"""
+    fns = set(ALLOCATORS)
+    changed = True
+    while changed:
+        changed = False
+        for f in mod.defined.values():
+            if f.name in fns:
+                continue
+            for a in (i for i in f.real_insts() if i.op == 'call' and i.callee in fns):
+                D = _derived(f, a.id)
+                phis = set(i.id for i in f.real_insts() if i.op == 'phi' and any(isinstance(v, str) and v in D for v, _ in i.ops))
+                if any(i.op == 'ret' and i.ops and isinstance(i.ops[0], str) and (i.ops[0] in D or i.ops[0] in phis) for i in f.real_insts()):
+                    fns.add(f.name); changed = True
+                    break
+    return fns
+
 def run(ctx, rep):
     mod = ctx.mod('C')
     rep.rule('C19.R1', 'every dereference/escape of the malloc result is dominated by the non-NULL edge of its NULL test')
     rep.rule('C19.R2', 'the NULL path performs no store and no call and returns NULL')
-    for name in CONSTRUCTORS:
+    rep.rule('C19.R3', 'on the NULL return no lock is held and no existing object has been written (the parent stays unchanged and usable)')
+    alloc_fns = allocator_functions(mod)
+    todo = [(n, True) for n in CONSTRUCTORS]
+    done = set()
+    while todo:
+        name, is_ctor = todo.pop(0)
+        if name in done:
+            continue
+        done.add(name)
         fn = mod.func(name)
         if fn is None or fn.decl:
             raise AnalysisBroken('C19: constructor %s not found in the library IR' % name)
         rep.functions.add(name)
         cfg = cfg_of(fn)
-        allocs = [i for i in fn.real_insts() if i.op == 'call' and i.callee in ALLOCATORS]
+        allocs = [i for i in fn.real_insts() if i.op == 'call' and i.callee in alloc_fns]
         if not allocs:
-            raise AnalysisBroken('C19: %s no longer calls malloc (anchor vanished)' % name)
+            raise AnalysisBroken('C19: %s no longer obtains memory from an allocator (anchor vanished)' % name)
+        for a in allocs:
+            if a.callee not in ALLOCATORS:
+                todo.append((a.callee, False))          # an allocating wrapper: its own use of the malloc result is judged too
         um = users_map(fn)
         for a in allocs:
-            D = derived_set(fn, a.id, through=('bitcast', 'addrspacecast', 'getelementptr'))
+            D = _derived(fn, a.id)
             # null tests on r
             tests = []
             for d in D:
@@ -56,6 +101,8 @@ def run(ctx, rep):
                         rep.violate(Violation('C19.R1', u.where(),
                             '%s: the result of %s (%s) is used by a %s that is not guarded by a NULL check' % (name, a.callee, a.where(), u.op),
                             site='%s/%s-use' % (name, u.op)))
+            if not guards and not is_ctor:
+                continue          # a plain wrapper that hands the pointer on unexamined (every use was judged by R1 above)
             if not guards:
                 rep.instance('C19.R2', '%s: no NULL test of the %s result' % (name, a.callee))
                 rep.oblig('C19.R2', False)
@@ -100,6 +147,30 @@ def run(ctx, rep):
                                           site='%s/null-path-%s' % (name, bad.op)))
                 elif not rets_ok:
                     rep.violate(Violation('C19.R2', b.where(), '%s: the NULL path does not return NULL' % name, site='%s/null-path-return' % name))
+    # ---- R3: the NULL return leaves every pre-existing object as it was (lockset interpretation of the constructors)
+    from .. import objmodel
+    from ..symex import Ptr
+    oeng, oruns = objmodel.analyse(ctx)
+    for label, fname, exits in oruns:
+        if not label.startswith(CONSTRUCTORS):
+            continue
+        for x in exits:
+            rv = x.trace[0] if x.trace else None
+            if rv != 0:
+                continue
+            held = [k[1] for k in x.ghost if isinstance(k, tuple) and k[0] == 'held']
+            wrote = [k[1] for k in x.ghost if isinstance(k, tuple) and k[0] == 'wrote']
+            ok = not held and not wrote
+            rep.instance('C19.R3', '%s: NULL return, locks still held: %s, existing objects written: %s' % (label, [getattr(h, 'base', h) for h in held], wrote))
+            rep.oblig('C19.R3', ok)
+            if not ok:
+                fn = mod.func(fname)
+                rep.violate(Violation('C19.R3', '%s:%d in %s' % (IR.rel(fn.file), fn.line, fname),
+                    '%s can return NULL %s: the caller is told nothing was created, yet %s' % (label,
+                        'with %s still locked' % ', '.join('%s->note_mu' % getattr(h, 'base', '?').replace('arg:', '') for h in held) if held else 'after modifying %s' % ', '.join(w.replace('arg:', '') for w in wrote),
+                        'every later operation on that note blocks forever' if held else 'the existing object is no longer unchanged'),
+                    site='%s/null-return-%s' % (fname, 'lock-held' if held else 'wrote')))
+    rep.floor('C19.R3', 2)
     rep.floor('C19.R1', 4)
     rep.floor('C19.R2', 2)
     rep.assumptions += ['malloc is the only allocation performed by the two constructors (checked: allocator calls are enumerated from the IR)',
